@@ -375,6 +375,174 @@ def charkey(ctx, crate, E):
     ctx.floor("CHARKEY", "table reads in char_info", n, 1)
 
 
+TYPE_BITS = {"bool": 1, "u8": 8, "i8": 8, "u16": 16, "i16": 16, "u32": 32, "i32": 32, "char": 21,
+             "u64": 64, "i64": 64, "usize": 64, "isize": 64, "u128": 128, "i128": 128}
+
+
+def _leaf_bits(fa, e):
+    """(upper bound on the number of significant bits of a packed leaf from its types, masks
+    and constants alone, the expressions met while peeling lossless conversions)"""
+    bits = 128
+    cores = []
+    for _ in range(12):
+        cores.append(e)
+        if e[0] == "proj":
+            e = e[1]
+            continue
+        if e[0] == "call" and len(e[2]) == 1 and e[1].rsplit("::", 1)[-1] == "branch":
+            e = e[2][0]
+            continue
+        if e[0] == "cast":
+            bits = min(bits, TYPE_BITS.get(e[2], 128))
+            e = e[1]
+            continue
+        if e[0] == "call" and len(e[2]) == 1 and e[1].rsplit("::", 1)[-1] in LOSSLESS_CALLS:
+            ty = fa.fn.locals[fa.term(e[3])["dest"]["l"]]["ty"]
+            bits = min(bits, TYPE_BITS.get(ty, 128))
+            e = e[2][0]
+            continue
+        if e[0] == "binop" and e[1] == "BitAnd":
+            c = _const(e[3])
+            x = e[2]
+            if c is None:
+                c, x = _const(e[2]), e[3]
+            if c is not None:
+                bits = min(bits, max(c, 0).bit_length())
+                e = x
+                continue
+            break
+        if e[0] == "const" and isinstance(e[1], int) and not isinstance(e[1], bool):
+            bits = min(bits, max(e[1], 0).bit_length())
+            break
+        if e[0] == "ap" and e[1].root[0] == "arg" and not e[1].proj:
+            bits = min(bits, TYPE_BITS.get(fa.fn.locals[e[1].root[1]]["ty"], 128))
+            break
+        if e[0] == "phi":
+            bits = min(bits, TYPE_BITS.get(fa.fn.locals[e[1]]["ty"], 128))
+            break
+        if e[0] == "call":
+            ty = fa.fn.locals[fa.term(e[3])["dest"]["l"]]["ty"]
+            bits = min(bits, TYPE_BITS.get(ty, 128))
+            break
+        break
+    return bits, cores
+
+
+def _guard_bits(fa, S, pb, cores):
+    """bits bound established for one of `cores` by comparisons that dominate block pb"""
+    from flow import bool_switch_targets
+    best = 128
+    dom = fa.dominators().get(pb, ())
+    for d in dom:
+        t = fa.term(d)
+        if t["k"] != "switch" or d == pb:
+            continue
+        e = S.operand(t["op"])
+        if e[0] != "binop" or e[1] not in ("Eq", "Ne", "Lt", "Le", "Gt", "Ge"):
+            continue
+        f_t, t_t = bool_switch_targets(t)
+        on_true = pb in fa.reachable(t_t, avoid={f_t}) and pb not in fa.reachable(f_t, avoid={t_t})
+        on_false = pb in fa.reachable(f_t, avoid={t_t}) and pb not in fa.reachable(t_t, avoid={f_t})
+        if not (on_true or on_false):
+            continue
+        a, b = e[2], e[3]
+
+        def peel(x):
+            for _ in range(10):
+                if x[0] == "cast":
+                    x = x[1]
+                elif x[0] == "proj":
+                    x = x[1]
+                elif x[0] == "call" and len(x[2]) == 1 and \
+                        x[1].rsplit("::", 1)[-1] in LOSSLESS_CALLS + ("branch",):
+                    x = x[2][0]
+                else:
+                    break
+            return x
+        pc = [peel(c) for c in cores]
+        # X >> k == 0
+        for x, z in ((a, b), (b, a)):
+            if _const(z) == 0 and x[0] == "binop" and x[1] == "Shr" and _const(x[3]) is not None and peel(x[2]) in pc:
+                zero_edge_true = e[1] == "Eq"
+                if e[1] in ("Eq", "Ne") and ((zero_edge_true and on_true) or (not zero_edge_true and on_false)):
+                    best = min(best, _const(x[3]))
+        # X < c etc.
+        op = e[1] if on_true else {"Lt": "Ge", "Le": "Gt", "Gt": "Le", "Ge": "Lt", "Eq": "Ne", "Ne": "Eq"}[e[1]]
+        ca, cb = _const(a), _const(b)
+        if cb is not None and peel(a) in pc:      # X op c
+            lim = cb if op == "Lt" else cb + 1 if op == "Le" else None
+        elif ca is not None and peel(b) in pc:    # c op X
+            lim = ca if op == "Gt" else ca + 1 if op == "Ge" else None
+        else:
+            lim = None
+        if lim is not None and lim > 0:
+            best = min(best, (lim - 1).bit_length())
+    return best
+
+
+def packguard(ctx, only=None):
+    """PACK (C03, C10, C11): wherever several values are packed into one integer
+    (`a | b << s1 | c << s2 ...`), every value is known to fit the gap up to the next field: by
+    its type (a bool, a u8 in 8 bits), by a mask, or by a comparison on every path to the pack
+    (`x >> BITS != 0 => reject`, `x > MAX => Err`). An unguarded field spills into its
+    neighbour: CharInfo would report another category or length, a packed (offset, count) pair
+    another posting list."""
+    crate = ctx.facts("A").lib
+    E = Effects(crate)
+    n = 0
+    for p, f in sorted(crate.fns.items()):
+        if not f.body or f.krate != "vibrato" or f.j.get("derive"):
+            continue
+        if only and not only(p):
+            continue
+        fa = E.fa(p)
+        ors = [(b, i, s0) for b, i, s0 in fa.stmts()
+               if s0.get("rv") and s0["rv"]["k"] == "binop" and s0["rv"]["op"] == "BitOr"]
+        if not ors:
+            continue
+        S = Sym(E, fa, depth=40)
+        inner = set()
+        for b, i, s0 in ors:
+            for o in (s0["rv"]["a"], s0["rv"]["b"]):
+                pl = op_place(o)
+                d = fa.single_def(pl["l"]) if pl is not None and not pl["p"] else None
+                if d and d[2] == "assign" and d[3]["k"] == "binop" and d[3]["op"] == "BitOr":
+                    inner.add((d[0], d[1]))
+        for b, i, s0 in ors:
+            if (b, i) in inner:
+                continue
+            e = ("binop", "BitOr", S.operand(s0["rv"]["a"]), S.operand(s0["rv"]["b"]))
+            leaves = []
+            _packed(e, leaves)
+            if not any(sh for x, sh in leaves if sh):
+                continue            # a plain OR of flags / sets, nothing is positioned
+            if any(sh is None for x, sh in leaves):
+                if all(_const(x) is not None for x, sh in leaves if sh is None):
+                    continue        # `1 << id`: a bit set
+                raise EngineError("PACK: variable shift of a variable in %s" % p)
+            total = TYPE_BITS.get(fa.fn.locals[s0["lhs"]["l"]]["ty"], None)
+            if total is None:
+                raise EngineError("PACK: result type of the pack in %s is not an integer" % p)
+            leaves.sort(key=lambda t: t[1])
+            for k, (x, sh) in enumerate(leaves):
+                nxt = leaves[k + 1][1] if k + 1 < len(leaves) else total
+                w = nxt - sh
+                # un-stripped leaf for type information
+                bits, cores = _leaf_bits(fa, x)
+                bits = min(bits, total)      # operands of the OR have the result's type
+                if bits > w:
+                    bits = min(bits, _guard_bits(fa, S, b, cores))
+                n += 1
+                ok = bits <= w and w > 0
+                ctx.ob("PACK", "%s|field@%d" % (p, sh), ok, fa.loc(b, i),
+                       "the value packed at bit %d of %s fits its %d bits" % (sh, p.split("::")[-1], w) if ok else
+                       "the value packed at bit %d in %s (%s) is only known to fit %s bits but the next "
+                       "field starts %d bits higher: a larger value spills into the neighbouring field "
+                       "(nothing on the way to the pack rejects or masks it)"
+                       % (sh, "::".join(p.split("::")[-2:]), show(x)[:60], bits if bits < 128 else "its type's", w))
+    ctx.floor("PACK", "packed fields", n, 5)
+
+
 def run(ctx):
     crate = ctx.facts("A").lib
     E = Effects(crate)
